@@ -52,7 +52,9 @@ inline back_ins back_inserter(uvector &v) { back_ins b; b.v = &v; return b; }
 /* std::upper_bound / std::copy by their standard semantics (linear versions) */
 extern "C" unsigned *stub_upper_bound(unsigned *a, unsigned *b, unsigned x) { unsigned *p = a; for (unsigned k = 0; k < VCAP; k++) if (p != b && !(x < *p)) p = p + 1; return p; }
 extern "C" void stub_copy(unsigned *a, unsigned *b, std::uvector *out) { unsigned *p = a; for (unsigned k = 0; k < VCAP; k++) if (p != b) { out->push_back(*p); p = p + 1; } }
+extern "C" unsigned *stub_lower_bound(unsigned *a, unsigned *b, unsigned x) { unsigned *p = a; for (unsigned k = 0; k < VCAP; k++) if (p != b && *p < x) p = p + 1; return p; }
 namespace std {
+inline unsigned *lower_bound(unsigned *a, unsigned *b, unsigned x) { return stub_lower_bound(a, b, x); }
 inline unsigned *upper_bound(unsigned *a, unsigned *b, unsigned x) { return stub_upper_bound(a, b, x); }
 inline void copy(unsigned *a, unsigned *b, back_ins o) { stub_copy(a, b, o.v); }
 }
